@@ -73,12 +73,111 @@ Definition up_env (nc : pc) (n k v i : Z) (c : pc) : env :=
   [("newContainer", VCont nc); ("length", VZ n); ("ok", VB false); ("vv", VZ k);
    ("v", VZ v); ("i", VZ i); ("p", VCont c)].
 
-Lemma copy_loop_tie f c n k v i : forall idxs nc,
-  count_loop (fun e' => scoped_exec (exec (pc_set f) 9) e' copy_body) "i" (up_env nc n k v i c) idxs =
+Ltac lz_scoped :=
+  match goal with |- context [scoped_exec ?st ?e ?b] => let t := lz (scoped_exec st e b) in change (scoped_exec st e b) with t end;
+  cbv beta iota.
+Ltac lz_pop :=
+  match goal with |- context [pop_to ?n ?e] => let t := lz (pop_to n e) in change (pop_to n e) with t end.
+
+Lemma copy_loop_tie (sf : prims) f (Hsf : forall c i v, p_set sf c i v = pc_set f c i v) c n k v i : forall idxs nc,
   match copy_loop (pc_set f) c nc idxs with
-  | (nc', OUnit) => SN (up_env nc' n k v i c)
-  | (nc', OPanic w) => SP (("i", VZ (last (firstn 1 (rev idxs)) 0)) :: up_env nc' n k v i c) w
-  | _ => SStuck
+  | (nc', OUnit) =>
+      count_loop (fun e' => scoped_exec (exec sf 10) e' copy_body) "i" (up_env nc n k v i c) idxs
+      = SN (up_env nc' n k v i c)
+  | (_, OPanic w) =>
+      exists e, count_loop (fun e' => scoped_exec (exec sf 10) e' copy_body) "i" (up_env nc n k v i c) idxs
+                = SP e w /\ lookup e "p" = Some (VCont c)
+  | _ => False
   end.
 Proof.
-Abort.
+  induction idxs as [|j t IH]; intros nc; cbn [copy_loop count_loop]; [reflexivity|].
+  lz_scoped.
+  destruct (pc_get_outcome c j) as [[x E]|[w E]]; rewrite E; cbv beta iota.
+  - rewrite !(Hsf nc j x). pose proof (pc_set_outcome f nc j x) as Ho.
+    destruct (pc_set f nc j x) as [nc1 o]. cbn [snd] in Ho. destruct Ho as [->|[w ->]]; cbv beta iota.
+    + lz_pop. apply IH.
+    + eexists. split; reflexivity.
+  - eexists. split; reflexivity.
+Qed.
+
+Lemma exec_for_i setf f e a b g args :
+  exec setf (S f) e (SFor [SDefine ["i"] [a]] [EBin "<" (EId "i") b] [SIncDec (EId "i") true] [SExpr (ECall g args)]) =
+  match eval setf (S f) e a with
+  | EV e1 (VZ lo) =>
+      match eval setf (S f) e1 b with
+      | EV e2 (VZ hi) =>
+          count_loop (fun e' => scoped_exec (exec setf f) e' [SExpr (ECall g args)]) "i" e2
+            (map (fun k => lo + Z.of_nat k) (seq 0 (Z.to_nat (hi - lo))))
+      | EV _ _ => SStuck | EP e2 w => SP e2 w | EStuck => SStuck
+      end
+  | EV _ _ => SStuck | EP e1 w => SP e1 w | EStuck => SStuck
+  end.
+Proof. reflexivity. Qed.
+
+Lemma positions_eq n : map (fun k => 0 + Z.of_nat k) (seq 0 (Z.to_nat (n - 0))) = positions n.
+Proof. unfold positions. rewrite Z.sub_0_r. apply map_ext. intros k. apply Z.add_0_l. Qed.
+
+Lemma scoped_unfold step e ss :
+  scoped_exec step e ss = match seq_exec step e ss with SN e1 => SN (pop_to (List.length e) e1) | r => r end.
+Proof. reflexivity. Qed.
+
+Theorem tie_set (sf : prims) f (Hsf : forall c i v, p_set sf c i v = pc_set f c i v) c i v :
+  set_result (run sf exp_PaletteContainer_Set (VCont c) [VZ i; VZ v]) = Some (pc_set (S f) c i v).
+Proof.
+  destruct c as [b cf p d].
+  unfold run, exec_body, run_fuel. cbn [g_recv g_params g_body exp_PaletteContainer_Set bind_all map fst].
+  rewrite seq_cons, exec_if. step. cbn [pc_set cpal cdata ccfg cbits].
+  destruct (pal_id p v) as [[p' k] ok] eqn:Hid. cbn [fst snd]. rewrite seq_nil. cbv beta iota.
+  ev1. destruct ok; cbv beta iota.
+  - (* hit *)
+    rewrite scoped_unfold. step.
+    pose proof (bs_set_outcome d i k) as Ho. destruct (bs_set d i k) as [d' o]. cbn [fst snd] in *.
+    destruct Ho as [->|[w ->]]; cbv beta iota.
+    + rewrite seq_nil. cbv beta iota. repeat lz_pop. reflexivity.
+    + reflexivity.
+  - (* miss: upgrade *)
+    apply id_miss_same in Hid as Hp. subst p'.
+    rewrite scoped_unfold. step. step.
+    destruct (bs_new (cfg_bits cf k) (blen d) None) as [d0|w]; cbv beta iota; [|reflexivity].
+    rewrite seq_cons, exec_for_i. ev1. ev1. rewrite positions_eq.
+    fold copy_body.
+    change [("newContainer", VCont (mkPC k cf (cfg_create cf k) d0)); ("length", VZ (blen d)); ("ok", VB false);
+            ("vv", VZ k); ("v", VZ v); ("i", VZ i); ("p", VCont (mkPC b cf p d))]
+      with (up_env (mkPC k cf (cfg_create cf k) d0) (blen d) k v i (mkPC b cf p d)).
+    pose proof (copy_loop_tie sf f Hsf (mkPC b cf p d) (blen d) k v i (positions (blen d)) (mkPC k cf (cfg_create cf k) d0)) as HL.
+    pose proof (copy_loop_outcome (pc_set f) (mkPC b cf p d) (pc_set_outcome f) (positions (blen d))
+                  (mkPC k cf (cfg_create cf k) d0)) as HO.
+    destruct (copy_loop (pc_set f) (mkPC b cf p d) (mkPC k cf (cfg_create cf k) d0) (positions (blen d))) as [nc o].
+    cbn [snd] in HO. destruct HO as [->|[w ->]].
+    + rewrite HL. cbv beta iota. unfold up_env.
+      destruct nc as [nb ncf np nd].
+      rewrite seq_cons, exec_if. step. cbn [cpal cdata ccfg cbits].
+      destruct (pal_id np v) as [[p2 k2] ok2]. cbn [fst snd]. rewrite seq_nil. cbv beta iota. ev1.
+      destruct ok2; cbn [negb]; cbv beta iota.
+      * rewrite scoped_unfold. step.
+        pose proof (bs_set_outcome nd i k2) as Ho. destruct (bs_set nd i k2) as [d2 o2]. cbn [fst snd] in *.
+        destruct Ho as [->|[w ->]]; cbv beta iota.
+        -- rewrite seq_nil. cbv beta iota. repeat lz_pop. step. rewrite seq_nil. cbv beta iota. repeat lz_pop. reflexivity.
+        -- reflexivity.
+      * rewrite scoped_unfold. step. reflexivity.
+    + destruct HL as (e & -> & He). cbv beta iota. cbn [set_result]. rewrite He. reflexivity.
+Qed.
+
+(* ---------- New{States,Biomes}PaletteContainer ---------- *)
+Definition new_result (r : sres) : option (res pc) :=
+  match r with SR _ [VCont c] => Some (ROk c) | SP _ w => Some (RPanic w) | _ => None end.
+
+Lemma tie_new_states gs gb n dflt :
+  new_result (run_g (cfg_env gs gb) no_set exp_NewStatesPaletteContainer VNil [VZ n; VZ dflt])
+  = Some (pc_new (mkCfg KStates gs) n dflt).
+Proof.
+  match goal with |- context [run_g ?g ?s ?f ?r ?a] => let t := lz (run_g g s f r a) in change (run_g g s f r a) with t end.
+  unfold pc_new. cbn [bs_new Z.eqb]. reflexivity.
+Qed.
+Lemma tie_new_biomes gs gb n dflt :
+  new_result (run_g (cfg_env gs gb) no_set exp_NewBiomesPaletteContainer VNil [VZ n; VZ dflt])
+  = Some (pc_new (mkCfg KBiomes gb) n dflt).
+Proof.
+  match goal with |- context [run_g ?g ?s ?f ?r ?a] => let t := lz (run_g g s f r a) in change (run_g g s f r a) with t end.
+  unfold pc_new. cbn [bs_new Z.eqb]. reflexivity.
+Qed.
